@@ -78,7 +78,7 @@ def run_case(ctx, nc, spec, si, dname, uname, vname, rname, cache, want, _shrink
     Execute one traversal case on the real code and judge it.
     want: subset of {"C06", "C07"}.  Returns list of mechanism tags found.
     """
-    if vname == "reentrant" and len(spec["verts"]) > 12:
+    if vname in ("reentrant", "mutual") and len(spec["verts"]) > 12:
         vname = "accept"  # the re-entrant filter runs a nested traversal per edge: small graphs only
     g = graphs.build(spec)
     if then:
